@@ -105,7 +105,7 @@ CLAIMED["C11"] = {
     "technique": "Lean 4 proof (induction on the back-off loop with a potential function) + sim-kernel trace conformance on virtual time",
     "text": "c11_poll / c11_poll_bounded (no error, no blocking waitpid, at most 3 calls, no sleep), c11_already_known, "
             "c11_not_early (Ok(None) only after a clock reading >= start + d), c11_wait_timeout_calls (only WNOHANG waits, every "
-            "sleep <= 100 ms), c11_none_only_after_a_status_check (\"still running\" is answered only right after a status check and a clock reading past the deadline: every nap is followed by a check), c11_no_spin (at most 9 + d/100ms status checks for EVERY d and every exit time under a clock "
+            "sleep <= 100 ms), c11_none_only_after_a_status_check (\"still running\" is answered only right after a status check and a clock reading past the deadline: every nap is followed by a check), c11_naps_within_remaining (every nap follows a clock reading before the deadline, is longer than zero and at most deadline - now), c11_not_late (under a per-round latency bound J every clock reading of the call is at most J past the deadline: lateness does not accumulate), c11_no_spin (at most 9 + d/100ms status checks for EVERY d and every exit time under a clock "
             "obeying A6). The real wait_timeout runs on a virtual clock with exit instants placed before the call, inside each "
             "back-off interval, at the deadline and never; sleep arguments, waitpid counts and return times are compared with the "
             "model and checked by direct oracles (not early, bounded lateness, bounded checks).",
